@@ -182,8 +182,12 @@ func (vc *VC) literalDecls() []string {
 		out = append(out, fmt.Sprintf("(assert (= (slower %s) %s))", n, vc.lowerLitName(s)))
 	}
 	// prefix/suffix facts between literals
-	for _, a := range lits {
-		for _, b := range lits {
+	pairLits := lits
+	if len(lits) > 24 {
+		pairLits = nil // too many literals: pairwise facts are left to the byte-level axioms
+	}
+	for _, a := range pairLits {
+		for _, b := range pairLits {
 			if a == b {
 				continue
 			}
